@@ -113,12 +113,10 @@ Theorem C16_indentation : forall lx file a w s ta ea la,
     shift_result (count_nl a) ta (removelast la) (cshift_result w (scan lx file s)).
 Proof. exact indentation_insertion. Qed.
 
-(** Any other change inside lines (trailing blanks, an end-of-line comment, spaces inside an
-    operand) is reduced to a decidable fact about the changed lines alone: two blocks of whole lines
-    that scan by themselves to the same significant tokens are interchangeable anywhere.  (The
-    general single-line fact for trailing blanks / end-of-line comments is NOT proved: partial;
-    instances are computed in Proofs/ScannerColumns.v and the metamorphic twins cover the rest.) *)
-Theorem C16_line_replacement_partial : forall lx file a l1 l2 b ta ea la t1 e1 ls1 t2 e2 ls2,
+(** Any change inside lines is reduced to a decidable fact about the changed lines alone: two
+    blocks of whole lines that scan by themselves to the same significant tokens are
+    interchangeable anywhere. *)
+Theorem C16_line_replacement : forall lx file a l1 l2 b ta ea la t1 e1 ls1 t2 e2 ls2,
   lexicon_ok lx = true ->
   ends_nl a -> scan lx file a = ScanOk (ta ++ [ea]) la ->
   ends_nl l1 -> scan lx file l1 = ScanOk (t1 ++ [e1]) ls1 ->
@@ -126,3 +124,35 @@ Theorem C16_line_replacement_partial : forall lx file a l1 l2 b ta ea la t1 e1 l
   sig t1 = sig t2 ->
   view_of (scan lx file (a ++ l1 ++ b)) = view_of (scan lx file (a ++ l2 ++ b)).
 Proof. exact line_replacement. Qed.
+
+(** Trailing blanks and end-of-line comments, for EVERY kind of line [x] (no restriction on what
+    the line contains beyond scanning by itself): spaces/tabs [w] after it, and a [;] comment with
+    any text [c] after those, change nothing significant — between any two lines of a text.  Side
+    condition for the comment: at least one blank before the [;] (the property's own wording), or
+    the line does not end in a bare mnemonic (`nop;c` scans `nop` as an identifier because the
+    mnemonic recogniser wants a blank, newline or '.' after the three letters; pinned by
+    Proofs/ScannerTrailing2.v, semi_after_mnemonic_differs).  [lexicon_tok]: no mnemonic of the
+    live table contains a blank, newline or ';' (discharged per run by computation). *)
+From A816 Require Import Proofs.ScannerTrailing1 Proofs.ScannerTrailing2.
+Theorem C16_trailing_blanks : forall lx file a x w b ta ea la t1 e1 l1,
+  lexicon_ok lx = true -> lexicon_tok lx = true ->
+  ends_nl a -> scan lx file a = ScanOk (ta ++ [ea]) la ->
+  ~ In 10%Z x -> blank_nonl w ->
+  scan lx file (x ++ [10%Z]) = ScanOk (t1 ++ [e1]) l1 ->
+  view_of (scan lx file (a ++ (x ++ w ++ [10%Z]) ++ b)) = view_of (scan lx file (a ++ (x ++ [10%Z]) ++ b)).
+Proof. exact trailing_blanks_invisible. Qed.
+Theorem C16_eol_comment : forall lx file a x w c b ta ea la t1 e1 l1,
+  lexicon_ok lx = true -> lexicon_tok lx = true ->
+  ends_nl a -> scan lx file a = ScanOk (ta ++ [ea]) la ->
+  ~ In 10%Z x -> blank_nonl w -> ~ In 10%Z c ->
+  (w <> [] \/ mem_str (map lower (slice x (length x - 3) (length x))) (lx_mnemonics lx) = false) ->
+  scan lx file (x ++ [10%Z]) = ScanOk (t1 ++ [e1]) l1 ->
+  view_of (scan lx file (a ++ (x ++ w ++ 59%Z :: c ++ [10%Z]) ++ b)) =
+  view_of (scan lx file (a ++ (x ++ [10%Z]) ++ b)).
+Proof. exact eol_comment_invisible. Qed.
+Theorem C16_line_tail_at_top : forall lx file x w tl b t1 e1 l1,
+  lexicon_ok lx = true -> lexicon_tok lx = true ->
+  ~ In 10%Z x -> blank_nonl w -> tail_ok tl -> semi_ok lx x w tl ->
+  scan lx file (x ++ [10%Z]) = ScanOk (t1 ++ [e1]) l1 ->
+  view_of (scan lx file ((x ++ w ++ tl) ++ b)) = view_of (scan lx file ((x ++ [10%Z]) ++ b)).
+Proof. exact line_tail_invisible_at_top. Qed.
